@@ -26,6 +26,7 @@ def deliver (d : Digest) (eof : Bool) : List Act → Digest × Bool
   | [] => (d, eof)
   | .write bs :: as => deliver (d.add bs) eof as
   | .closeWrite :: as => deliver d true as
+  | .close _ :: as => deliver d true as
 
 structure St where
   phase : Nat := 0          -- 0 fresh, 1 tunnel open, 2 no tunnel
@@ -34,14 +35,16 @@ structure St where
   seedT : Nat := 0
   sentC : Nat := 0
   sentT : Nat := 0
-  up : Pump := ⟨[], false⟩
-  down : Pump := ⟨[], false⟩
+  up : Pump := .fresh []
+  down : Pump := .fresh []
   tD : Digest := {}
   cD : Digest := {}
   tEOF : Bool := false      -- what the target's reader has seen: propagated EOF, or its own full close
   cEOF : Bool := false
-  cClosed : Nat := 0        -- 0 open, 1 half, 2 full
+  cClosed : Nat := 0        -- 0 open, 1 half, 2 full, 3 aborted (RST)
   tClosed : Nat := 0
+  cGone : Bool := false     -- has kept writing towards a closed target (the proxy's write failed)
+  tGone : Bool := false
 
 def init : St := {}
 
@@ -52,8 +55,11 @@ def kindOf (s : String) : Option ConnKind :=
 
 def b01 (b : Bool) : String := if b then "1" else "0"
 
+/-- an end that has closed fully or abortively no longer reads: printed as `-` -/
 def St.obs (s : St) : String :=
-  s!"t={s.tD.show} c={s.cD.show} teof={b01 s.tEOF} ceof={b01 s.cEOF}"
+  let t := if s.tClosed ≥ 2 then "-" else s.tD.show
+  let c := if s.cClosed ≥ 2 then "-" else s.cD.show
+  s!"t={t} c={c} teof={b01 s.tEOF} ceof={b01 s.cEOF}"
 
 def St.upLoop (s : St) : Loop := readerWriteToLoop s.cfg.target s.cfg.client
 def St.downLoop (s : St) : Loop := ioCopyLoop s.cfg.client s.cfg.target
@@ -78,9 +84,9 @@ def openOp (route lst tgt : String) (early banner seedC seedT : Nat) : Option St
   -- viafake: the downstream proxy's head and the banner arrive in one segment: connect() hands them over as res.Body
   let ahead := if route = "viafake" then bannerB else []
   let s : St := { phase := 1, cfg := cfg, seedC := seedC, seedT := seedT, sentC := early, sentT := banner,
-                  up := ⟨earlyB, false⟩, down := ⟨[], false⟩ }
+                  up := .fresh earlyB, down := .fresh [] }
   -- res.Write(brw); brw.Flush(): head, then res.Body
-  let (cD, _) := deliver s.cD false (if ahead.isEmpty then [] else [.write ahead])
+  let (cD, _) := deliver s.cD false (optWrite ahead)
   let s := { s with cD := cD }
   -- both pumps start: the client-bound one has nothing buffered, the target-bound one writes out brw.Reader's buffer
   let r := s.up.start
@@ -92,47 +98,83 @@ def openOp (route lst tgt : String) (early banner seedC seedT : Nat) : Option St
   -- a banner that was not read ahead is the target's first segment
   if route ≠ "viafake" ∧ banner > 0 then some (s.stepDown (.data bannerB)) else some s
 
+def doOpen (s : St) (route lst tgt early banner seedC seedT : String) : St × String :=
+  if s.phase ≠ 0 then (s, "bad-op") else
+  match early.toNat?, banner.toNat?, seedC.toNat?, seedT.toNat? with
+  | some e, some b, some sc, some st =>
+    match openOp route lst tgt e b sc st with
+    | some s' => (s', s!"status 200 {s'.obs}")
+    | none => (s, "bad-op")
+  | _, _, _, _ => (s, "bad-op")
+
 def step (s : St) (toks : List String) : St × String :=
   match toks with
   | ["unreach", route, lst] =>
     if s.phase ≠ 0 ∨ (kindOf lst).isNone ∨ (route ≠ "direct" ∧ route ≠ "via") then (s, "bad-op") else
     let o := handleConnect s.cfg .refused [] [] []
     ({ s with phase := 2 }, s!"status {o.status} {if o.warning then "warning" else "nowarning"}")
-  | ["open", route, lst, tgt, early, banner, seedC, seedT] =>
-    if s.phase ≠ 0 then (s, "bad-op") else
-    match early.toNat?, banner.toNat?, seedC.toNat?, seedT.toNat? with
-    | some e, some b, some sc, some st =>
-      match openOp route lst tgt e b sc st with
-      | some s' => (s', s!"status 200 {s'.obs}")
-      | none => (s, "bad-op")
-    | _, _, _, _ => (s, "bad-op")
-  | ["send", nC, nT, _seed] =>
+  | ["open", route, lst, tgt, early, banner, seedC, seedT] => doOpen s route lst tgt early banner seedC seedT
+  | ["open", route, lst, tgt, early, banner, seedC, seedT, _timeoutMs] =>
+    -- the proxy's timeout is wall-clock: the model sees it only as the `deadline` event of op `outlive`
+    doOpen s route lst tgt early banner seedC seedT
+  | ["outlive", wrote, fwd] =>
+    -- the client wrote `wrote` bytes without ever being idle; `fwd` of them had been forwarded when the
+    -- serving loop's deadline on the client connection fell (fwd = wrote: it did not fall)
+    if s.phase ≠ 1 ∨ s.cClosed ≠ 0 ∨ s.tClosed ≠ 0 then (s, "bad-op") else
+    match wrote.toNat?, fwd.toNat? with
+    | some w, some k =>
+      if k > w then (s, "bad-op") else
+      let s := if k > 0 then s.stepUp (.data (stream s.seedC s.sentC k)) else s
+      let s := if k < w then { s.stepUp .deadline with cGone := true } else s
+      ({ s with sentC := s.sentC + w }, s.obs)
+    | _, _ => (s, "bad-op")
+  | ["sendgone", who, n, _seed] =>
+    if s.phase ≠ 1 ∨ (who ≠ "c" ∧ who ≠ "t") then (s, "bad-op") else
+    match n.toNat? with
+    | some n =>
+      if n < 8 then (s, "bad-op") else
+      -- the proxy's writes towards the closed end fail (how many bytes its kernel still took is not observable)
+      if who = "c" then
+        if s.cClosed ≠ 0 ∨ s.tClosed < 2 then (s, "bad-op") else
+        ({ s.stepUp (.dataW (stream s.seedC s.sentC n) 0) with sentC := s.sentC + n, cGone := true }, "gone")
+      else
+        if s.tClosed ≠ 0 ∨ s.cClosed < 2 then (s, "bad-op") else
+        ({ s.stepDown (.dataW (stream s.seedT s.sentT n) 0) with sentT := s.sentT + n, tGone := true }, "gone")
+    | none => (s, "bad-op")
+  | [op, nC, nT, _seed] =>
+    if op ≠ "send" ∧ op ≠ "push" then (s, "bad-op") else
     if s.phase ≠ 1 then (s, "bad-op") else
     match nC.toNat?, nT.toNat? with
     | some nC, some nT =>
       -- harness rule: nothing is sent by an end that has finished sending, nor towards an end that is gone
-      let nC := if s.cClosed ≠ 0 ∨ s.tClosed = 2 then 0 else nC
-      let nT := if s.tClosed ≠ 0 ∨ s.cClosed = 2 then 0 else nT
+      let nC := if s.cClosed ≠ 0 ∨ s.tClosed ≥ 2 then 0 else nC
+      let nT := if s.tClosed ≠ 0 ∨ s.cClosed ≥ 2 then 0 else nT
       let s := if nC > 0 then { s.stepUp (.data (stream s.seedC s.sentC nC)) with sentC := s.sentC + nC } else s
       let s := if nT > 0 then { s.stepDown (.data (stream s.seedT s.sentT nT)) with sentT := s.sentT + nT } else s
-      (s, s.obs)
+      -- push: the bytes are still on their way when the op returns; nothing is observed
+      (s, if op = "push" then "pushed" else s.obs)
     | _, _ => (s, "bad-op")
+  | ["rd", who, how] =>
+    -- the speed of an end's reader changes when bytes arrive, not what arrives
+    if s.phase ≠ 1 ∨ (who ≠ "c" ∧ who ≠ "t") ∨ (how ≠ "eager" ∧ how ≠ "slow") then (s, "bad-op") else (s, "rd")
   | ["close", who, how] =>
-    if s.phase ≠ 1 ∨ (who ≠ "c" ∧ who ≠ "t") ∨ (how ≠ "half" ∧ how ≠ "full") then (s, "bad-op") else
-    let lvl := if how = "half" then 1 else 2
+    if s.phase ≠ 1 ∨ (who ≠ "c" ∧ who ≠ "t") ∨ (how ≠ "half" ∧ how ≠ "full" ∧ how ≠ "abort") then (s, "bad-op") else
+    let lvl := if how = "half" then 1 else if how = "full" then 2 else 3
+    -- what the proxy's Read returns: io.EOF after CloseWrite/Close, ECONNRESET after an abortive close
+    let ev : Ev := if lvl = 3 then .rerr else .eof
     if who = "c" then
-      if s.cClosed = 2 ∨ s.cClosed = lvl then (s, s.obs) else
-      let s := if s.cClosed = 0 then s.stepUp .eof else s
-      let s := { s with cClosed := lvl, cEOF := s.cEOF || lvl = 2 }
+      if s.cClosed ≥ 2 ∨ s.cClosed = lvl then (s, s.obs) else
+      let s := if s.cClosed = 0 then s.stepUp ev else s
+      let s := { s with cClosed := lvl, cEOF := s.cEOF || lvl ≥ 2 }
       (s, s.obs)
     else
-      if s.tClosed = 2 ∨ s.tClosed = lvl then (s, s.obs) else
-      let s := if s.tClosed = 0 then s.stepDown .eof else s
-      let s := { s with tClosed := lvl, tEOF := s.tEOF || lvl = 2 }
+      if s.tClosed ≥ 2 ∨ s.tClosed = lvl then (s, s.obs) else
+      let s := if s.tClosed = 0 then s.stepDown ev else s
+      let s := { s with tClosed := lvl, tEOF := s.tEOF || lvl ≥ 2 }
       (s, s.obs)
   | ["end"] =>
     if s.phase ≠ 1 then (s, "end n/a")
-    else if s.cClosed = 0 ∨ s.tClosed = 0 then (s, "end open")
+    else if (s.cClosed = 0 ∧ !s.cGone) ∨ (s.tClosed = 0 ∧ !s.tGone) then (s, "end open")
     else (s, if s.up.finished && s.down.finished then "end released" else "end blocked")
   | _ => (s, "bad-op")
 
